@@ -20,7 +20,7 @@ type Config struct {
 // DefaultAlphabet: ASCII letters forming plain case pairs (no k/s: their fold orbits have three
 // members), a digit, space, punctuation, newline, Latin-1/Greek/Cyrillic pairs, a combining mark and an
 // astral rune.
-var DefaultAlphabet = []rune{'a', 'b', 'c', 'A', 'B', 'x', 'y', '1', ' ', '-', '_', '\n', 'é', 'É', 'α', 'Α', 'я', 'Я', 0x301, 0x1F600}
+var DefaultAlphabet = []rune{'a', 'b', 'c', 'A', 'B', 'x', 'y', '1', ' ', '-', '_', '\n', 'é', 'É', 'α', 'Α', 'я', 'Я', 0x301, 0x1F600, 0x1F601}
 
 type state struct {
 	rng   *rand.Rand
